@@ -257,6 +257,7 @@ class Sim:
         self.max_pending = 0
         self.last_external = 0
         self.max_lag = 0
+        self.pending_at_end = 0
 
     # -- trace -------------------------------------------------------------------------------
     def log(self, kind, node=None, payload=None, run=None):
@@ -460,6 +461,7 @@ class Sim:
         for i, t in enumerate(self.run_tasks):
             if i not in self.done_seq and t.done():
                 self.done_seq[i] = (self.seq, self.loop.handles_run)
+                self.pending_at_end = max(self.pending_at_end, len(self.pending_gates()))
                 lag = self.loop.handles_run - self.last_external
                 if lag > self.max_lag:
                     self.max_lag = lag
